@@ -10,9 +10,9 @@
 #define FEC_INSIDE(lo, x, hi) ((lo) < (x) && (x) < (hi))
 
 /* preconditions on the scalars (the asserts of estimateRootTime + finite bracket) */
-#define FEC_ABS_REQUIRES(tLow, tHigh, bias, minWindow) \
-  ( FEC_FIN(tLow) && FEC_FIN(tHigh) && (tLow) < (tHigh) && -1e300 <= (tLow) && (tHigh) <= 1e300 \
-    && (bias) > 0 && FEC_FIN(bias) && (minWindow) > 0 && FEC_FIN(minWindow) )
+#define FEC_ABS_REQUIRES_BRACKET(tLow, tHigh)     (FEC_FIN(tLow) && FEC_FIN(tHigh) && (tLow) < (tHigh) && -1e300 <= (tLow) && (tHigh) <= 1e300)
+#define FEC_ABS_REQUIRES_PARAMS(bias, minWindow)  ((bias) > 0 && FEC_FIN(bias) && (minWindow) > 0 && FEC_FIN(minWindow))
+#define FEC_ABS_REQUIRES(tLow, tHigh, bias, minWindow) (FEC_ABS_REQUIRES_BRACKET(tLow, tHigh) && FEC_ABS_REQUIRES_PARAMS(bias, minWindow))
 
 /* (a) the list can only be narrowed */
 #define FEC_ABS_NARROWED(n, viable_n)  ((n) >= 0 && ((viable_n) >= 0 ==> (n) <= (viable_n)))
